@@ -10,8 +10,8 @@ package c12
 import (
 	"context"
 	"encoding/binary"
-	"fmt"
 	"encoding/json"
+	"fmt"
 	"hash/crc32"
 	"math/rand/v2"
 	"runtime"
